@@ -656,7 +656,12 @@ func callSSA(i *interpreter, caller *frame, callpos token.Pos, fn *ssa.Function,
 			if ps.stubs != nil {
 				ps.stubs[name+" (stub: arbitrary uint64 per distinct name)"] = true
 			}
-			v := mkval(types.Uint64, ps.newInput(key, "taxhash", bvSort(64)))
+			hv := ps.newInput(key, "taxhash", bvSort(64))
+			if ps.taxHashBits > 0 && ps.taxHashBits < 64 {
+				// small hash domain: many collisions, few bucket layouts
+				ps.addPC(ps.ts.BvCmp(OpBvUlt, hv, ps.ts.BV(uint64(1)<<uint(ps.taxHashBits), 64)))
+			}
+			v := mkval(types.Uint64, hv)
 			ps.memo[key] = v
 			return v
 		}
